@@ -207,24 +207,14 @@ theorem allP_stmt (P : Pos → Prop) : ∀ (s : SStmt) (sfx : String) (off : Nat
     have hp := h p (by simp [stmtPosns])
     have hv : ∀ x t q, (x, t, q) ∈ vars → P q := fun x t q hm =>
       h q (by simp only [stmtPosns]; exact List.mem_cons_of_mem _ (List.mem_map.mpr ⟨(x, t, q), hm, rfl⟩))
-    have h1 : AllP P (vars.flatMap (fun (x, _, q) => [(CInstr.varPath x, q), (CInstr.copyVarPathToA, q), (CInstr.pushByRef, q)])) := by
-      intro ip hip
+    simp only [compileStmt]
+    split
+    · simp [allP_cons, allP_nil, hp]
+    · intro ip hip
       obtain ⟨⟨x, t, q⟩, hmem, hin⟩ := List.mem_flatMap.mp hip
       have hq := hv x t q hmem
       simp at hin
-      rcases hin with rfl | rfl | rfl <;> exact hq
-    have h2 : AllP P ((vars.zipIdx).map (fun ((_, _, q), i) => (CInstr.enqueue i, q))) := by
-      intro ip hip
-      obtain ⟨⟨⟨x, t, q⟩, i⟩, hmem, rfl⟩ := List.mem_map.mp hip
-      exact hv x t q (List.fst_mem_of_mem_zipIdx hmem)
-    have h3 : AllP P (vars.flatMap (fun (x, _, q) => [(CInstr.dequeue, q), (CInstr.varPath x, q), (CInstr.copyAToVarPath, q)])) := by
-      intro ip hip
-      obtain ⟨⟨x, t, q⟩, hmem, hin⟩ := List.mem_flatMap.mp hip
-      have hq := hv x t q hmem
-      simp at hin
-      rcases hin with rfl | rfl | rfl <;> exact hq
-    simp only [compileStmt, allP_append, allP_cons]
-    exact ⟨⟨⟨⟨⟨⟨hp, allP_nil P⟩, h1⟩, hp, hp, allP_nil P⟩, h2⟩, hp, allP_nil P⟩, h3⟩
+      rcases hin with rfl | rfl | rfl | rfl | rfl | rfl | rfl | rfl | rfl | rfl | rfl <;> first | exact hp | exact hq
   | .ifBlock c thn elifs hasElse els p, sfx, off, h => by
     have hp := h p (by simp [stmtPosns])
     have hc := allP_expr P c (fun q hq => h q (by simp [stmtPosns, hq]))
